@@ -246,6 +246,8 @@ QUICK = [
     ("c4", "plain3", (F(1), F(0), False), "none", 2),
     ("c5", "herald0_inout", (F(1), F(0), True), "lambda_ge1", 0),
     ("c6", "herald1_b", (F(1, 2), F(1, 4), False), "none", 0),
+    ("c7", "herald1_lossy", (F(1, 2), F(0), True), "none", 2),      # a photon-carrying herald together with min_detection and loss
+    ("c8", "herald1_b", (F(3, 4), F(0), True), "none", 1),
 ]
 
 
